@@ -111,10 +111,10 @@ def run_scenario(vsc, render, flat, sc, variant):
                                            ["expr", ["bin", ">", ["f", names[0]], ["lit", 0]]]], "randomize_with", kw=kw or None)
             vals = [int(getattr(o, n)) for n in names] + [[int(x) for x in getattr(o, l)] for l in lists]
             trace.append(vals)
-        except vsc.SolveFailure:
-            trace.append(["SolveFailure"])
         except Exception as e:
-            trace.append(["exception", type(e).__name__])
+            # a failing call produces no values; which exception it raises under which diagnostic flag is not C09's
+            # subject (C02 judges exception types at default flags)
+            trace.append(["failed"])
     return trace
 
 
